@@ -13,7 +13,9 @@ import (
 	"time"
 
 	"github.com/chihaya/chihaya/bittorrent"
+	"github.com/chihaya/chihaya/middleware"
 	"github.com/chihaya/chihaya/middleware/varinterval"
+	"github.com/chihaya/chihaya/storage/memory"
 )
 
 func init() {
@@ -82,9 +84,19 @@ func c18Hook(o *Out, kind string, ih, pid []byte, prob float32, maxd int, modmin
 	if err != nil {
 		return
 	}
+	evs := []bittorrent.Event{bittorrent.None, bittorrent.Started, bittorrent.Stopped, bittorrent.Completed}
+	evk := 0
+	if len(pid) > 0 {
+		evk = int(pid[len(pid)-1])
+	}
 	mk := func(port uint16, left uint64) (*bittorrent.AnnounceRequest, *bittorrent.AnnounceResponse) {
+		// the delta is a function of infohash and peer ID alone: the event (incl. stopped / completed), port and
+		// left differ between the two announces of a case
+		if left != 0 {
+			evk += 2
+		}
 		req := &bittorrent.AnnounceRequest{
-			InfoHash: bittorrent.InfoHashFromBytes(ih), Left: left, NumWant: 7, Compact: true,
+			InfoHash: bittorrent.InfoHashFromBytes(ih), Left: left, NumWant: 7, Compact: true, Event: evs[evk%4],
 			Peer: bittorrent.Peer{ID: bittorrent.PeerIDFromBytes(pid), Port: port,
 				IP: bittorrent.IP{IP: net.IP{10, 0, 0, 1}, AddressFamily: bittorrent.IPv4}},
 		}
@@ -110,6 +122,61 @@ func c18Hook(o *Out, kind string, ih, pid []byte, prob float32, maxd int, modmin
 		Obs: map[string]interface{}{"i_out": fmt.Sprint(iOut), "m_out": fmt.Sprint(mOut), "i_out2": fmt.Sprint(iOut2), "rest_same": same}})
 }
 
+// c18rej rejects the announces of one fixed peer ID (stands for any approval / authentication hook).
+type c18rej struct{ banned bittorrent.PeerID }
+
+func (h c18rej) HandleAnnounce(ctx context.Context, r *bittorrent.AnnounceRequest, _ *bittorrent.AnnounceResponse) (context.Context, error) {
+	if r.Peer.ID == h.banned {
+		return ctx, bittorrent.ClientError("unapproved client")
+	}
+	return ctx, nil
+}
+func (h c18rej) HandleScrape(ctx context.Context, _ *bittorrent.ScrapeRequest, _ *bittorrent.ScrapeResponse) (context.Context, error) {
+	return ctx, nil
+}
+
+// c18Logic: the hook inside the real middleware.Logic (memory store), FOLLOWED by a hook that rejects another
+// client: rejected announces (whose responses the interval hook has already lengthened) alternate with the
+// measured client's announces.  What the measured client receives must still be configured + its own delta.
+func c18Logic(o *Out, kind string, ih, pid []byte, prob float32, maxd int, modmin bool, iIn, mIn int64) {
+	in := map[string]interface{}{"t": "logic", "ih": hx(ih), "pid": hx(pid), "probbits": math.Float32bits(prob),
+		"maxd": maxd, "modmin": modmin, "i_in": fmt.Sprint(iIn), "m_in": fmt.Sprint(mIn)}
+	h, err := varinterval.NewHook(varinterval.Config{ModifyResponseProbability: prob, MaxIncreaseDelta: maxd, ModifyMinInterval: modmin})
+	if err != nil {
+		return
+	}
+	huge := 1000 * time.Hour
+	ps, err := memory.New(memory.Config{ShardCount: 1, GarbageCollectionInterval: huge, PrometheusReportingInterval: huge, PeerLifetime: huge})
+	if err != nil {
+		panic(err)
+	}
+	defer func() { <-ps.Stop() }()
+	banned := bittorrent.PeerIDFromBytes([]byte("-XX0000-banned-00000"))
+	lg := middleware.NewLogic(middleware.ResponseConfig{AnnounceInterval: time.Duration(iIn), MinAnnounceInterval: time.Duration(mIn)}, ps,
+		[]middleware.Hook{h, c18rej{banned}}, nil)
+	announce := func(id bittorrent.PeerID, port uint16, left uint64, ev bittorrent.Event) (int64, int64, bool) {
+		req := &bittorrent.AnnounceRequest{InfoHash: bittorrent.InfoHashFromBytes(ih), Left: left, NumWant: 7, Compact: true, Event: ev,
+			Peer: bittorrent.Peer{ID: id, Port: port, IP: bittorrent.IP{IP: net.IP{10, 0, 0, 1}, AddressFamily: bittorrent.IPv4}}}
+		ctx, resp, err := lg.HandleAnnounce(context.Background(), req)
+		if err != nil {
+			return 0, 0, false
+		}
+		lg.AfterAnnounce(ctx, req, resp)
+		return int64(resp.Interval), int64(resp.MinInterval), true
+	}
+	me := bittorrent.PeerIDFromBytes(pid)
+	announce(banned, 1, 1, bittorrent.Started)
+	iOut, mOut, ok1 := announce(me, 6881, 0, bittorrent.None)
+	announce(banned, 1, 1, bittorrent.None)
+	announce(banned, 1, 1, bittorrent.Stopped)
+	iOut2, _, ok2 := announce(me, 51413, 12345, bittorrent.Completed)
+	pm, pe := f32parts(prob)
+	coq := fmt.Sprintf("CHook %s %s %s %s %s %s %s %s %s %s %s %s", cB(ih), cB(pid), cZ(pm), cZ(pe), cZ(int64(maxd)), cBool(modmin),
+		cZ(iIn), cZ(mIn), cZ(iOut), cZ(mOut), cZ(iOut2), cBool(ok1 && ok2))
+	o.add(Case{Coq: coq, In: in, Kind: kind,
+		Obs: map[string]interface{}{"i_out": fmt.Sprint(iOut), "m_out": fmt.Sprint(mOut), "i_out2": fmt.Sprint(iOut2), "rest_same": ok1 && ok2}})
+}
+
 func c18Cfg(o *Out, kind string, prob float32, maxd int) {
 	in := map[string]interface{}{"t": "cfg", "probbits": math.Float32bits(prob), "maxd": maxd}
 	_, err := varinterval.NewHook(varinterval.Config{ModifyResponseProbability: prob, MaxIncreaseDelta: maxd})
@@ -133,6 +200,8 @@ func c18Replay(o *Out, in map[string]interface{}) error {
 	switch jStr(in["t"]) {
 	case "hook":
 		c18Hook(o, "replay", unhx(in["ih"]), unhx(in["pid"]), prob, int(jInt(in["maxd"])), jBool(in["modmin"]), jInt(in["i_in"]), jInt(in["m_in"]))
+	case "logic":
+		c18Logic(o, "replay", unhx(in["ih"]), unhx(in["pid"]), prob, int(jInt(in["maxd"])), jBool(in["modmin"]), jInt(in["i_in"]), jInt(in["m_in"]))
 	case "cfg":
 		c18Cfg(o, "replay", prob, int(jInt(in["maxd"])))
 	default:
@@ -209,5 +278,8 @@ func c18Stream(o *Out, rng *rand.Rand, n int) {
 		rng.Read(ih)
 		rng.Read(pid)
 		c18Hook(o, "random", ih, pid, pickProb(), pickDelta(), rng.Intn(2) == 0, intervals[rng.Intn(len(intervals))], intervals[rng.Intn(len(intervals))])
+		if i%10 == 0 {
+			c18Logic(o, "through-logic", ih, pid, pickProb(), pickDelta(), rng.Intn(2) == 0, intervals[rng.Intn(len(intervals))], intervals[rng.Intn(len(intervals))])
+		}
 	}
 }
